@@ -89,6 +89,10 @@ if __name__ == '__main__':
         SRC = '/tmp/seeded-out4'
         labels = ('G', 'H')
         args = args[1:]
+    if args and args[0] == '--round5':
+        SRC = '/tmp/seeded-out5'
+        labels = ('I', 'J')
+        args = args[1:]
     if args and args[0] == '--round3':
         SRC = '/tmp/seeded-out3'
         labels = ('E', 'F')
